@@ -754,7 +754,9 @@ def _table_merger(ctx, f):
                                     "old": 1, "rejected": rej})
         except (TTUnknown, KeyError) as e:
             ok_s = False
-            bad.append(f"cannot evaluate: {str(e)[:80]}")
+            raise AnalysisError(
+                f"{f.qual}: a sortedness guard is outside the evaluated "
+                f"fragment: {str(e)[:80]}")
     ctx.check(ok_s and not bad, "C14b-sortedness-check", f,
               "an input that is not sorted as declared is rejected (raise "
               "when a new head exceeds the previous one in descending mode, "
